@@ -50,14 +50,25 @@ def _printable(s):
     # the third-party toml 0.10.2 writer escapes non-printable characters (NBSP, SHY, C0/C1 …) as \xNN, which its own
     # reader rejects or mangles: not nanoemoji's code, excluded
     # (and it leaves a literal backslash followed by "x" unescaped, producing a file it cannot read back)
-    return all(ch.isprintable() or ch in "\t\n" for ch in s) and "\\x" not in s
+    return all(ch.isprintable() or ch in "\t\n" for ch in s) and "\\x" not in s and _toml_roundtrips(s)
+
+
+def _toml_roundtrips(s):
+    """The domain is the strings the third-party TOML library itself can carry (checked with that library alone, nanoemoji is
+    not involved): toml 0.10.2 reads a string made only of escaped quotes back as the empty string, mangles \\x …"""
+    import toml
+
+    try:
+        return toml.loads(toml.dumps({"k": s, "l": [s]})) == {"k": s, "l": [s]}
+    except Exception:
+        return False
 
 
 file_stem = st.lists(name_chars, min_size=1, max_size=12).map("".join).filter(lambda s: s not in (".", "..") and "\n" not in s and "\r" not in s and _printable(s))
 
 text_value = st.one_of(
     st.sampled_from(["An Emoji Family", "features.fea", "x", "a b", 'q"uote', "back\\slash", "hash # = [br]", "tab\there", "nl\nline", "😀 family", "ünï", "'single'", ""]),
-    st.text(st.characters(blacklist_categories=("Cc", "Cs", "Cn"), max_codepoint=0x1FFFF), max_size=12).filter(lambda s: all(ch.isprintable() for ch in s) and "\\x" not in s),
+    st.text(st.characters(blacklist_categories=("Cc", "Cs", "Cn"), max_codepoint=0x1FFFF), max_size=12).filter(lambda s: all(ch.isprintable() for ch in s) and "\\x" not in s and _toml_roundtrips(s)),
 )
 
 
@@ -95,7 +106,7 @@ def config_case(draw):
     axes = [[t, draw(st.sampled_from(["Weight", "W i d t h", "Sl.ant", "😀"])), draw(st.sampled_from([400, 100.0, 0, 62.5]))] for t in tags]
     nm = 1 if static else draw(st.integers(1, 3))
     mnames = draw(st.lists(st.sampled_from(["regular", "bold", "Thin.Italic", "with space", "m-1", "ünï"]), min_size=nm, max_size=nm, unique=True))
-    srcnames = draw(st.lists(file_stem.map(lambda s: s.replace("*", "x") + ".svg"), min_size=1, max_size=3, unique=True))
+    srcnames = draw(st.lists(file_stem.map(lambda s: s.replace("*", "_") + ".svg"), min_size=1, max_size=3, unique=True))
     masters = []
     for i, mn in enumerate(mnames):
         pos = {t: (axes[k][2] if i == 0 else draw(st.sampled_from([100, 700.5, 900, -12]))) for k, t in enumerate(tags)}
@@ -157,6 +168,11 @@ def rsp_case(draw):
 def names_case(draw):
     n = draw(st.integers(1, 8))
     seqs = draw(sequence_set(n))
+    if draw(st.integers(0, 5)) == 0:
+        # one-hex-digit codepoints (U+0001..U+000F): the shortest spelling a file name can carry
+        small = [draw(st.integers(1, 15))] + ([0x200D, draw(st.integers(1, 15))] if draw(st.booleans()) else [])
+        if small not in seqs:
+            seqs = seqs + [small]
     style = draw(st.sampled_from(["emoji_u", "plain-", "plain_"]))
     upper = draw(st.booleans())
     pad = draw(st.booleans())
